@@ -106,6 +106,25 @@ func ReadRawHeaders(dst, buf []byte) ([]byte, int, error) {
 	}
 }
 
+// CheckHeaderBlockComplete returns ErrNeedMore unless buf starts with a complete
+// header block, i.e. zero or more header lines followed by an empty line.
+//
+// Header values are normalized in place while they are scanned, and an incomplete
+// parse is retried on the same buffer once more data has arrived, so scanning must
+// not start before the whole block has been received.
+func CheckHeaderBlockComplete(buf []byte) error {
+	for {
+		n := bytes.IndexByte(buf, '\n')
+		if n < 0 {
+			return errNeedMore
+		}
+		if n == 0 || (n == 1 && buf[0] == '\r') {
+			return nil
+		}
+		buf = buf[n+1:]
+	}
+}
+
 func WriteBodyChunked(w network.Writer, r io.Reader) error {
 	vbuf := utils.CopyBufPool.Get()
 	buf := vbuf.([]byte)
@@ -518,6 +537,9 @@ func parseTrailer(t *protocol.Trailer, buf []byte) (int, error) {
 			return 0, io.EOF
 		}
 		buf = buf[skip:]
+	}
+	if err := CheckHeaderBlockComplete(buf); err != nil {
+		return 0, err
 	}
 
 	var s HeaderScanner
